@@ -348,7 +348,7 @@ def gen_case(rng) -> str:  # noqa: C901, PLR0912, PLR0915
 
 
 def generate(rng, tier):
-    n = 2500 if tier == "quick" else 16 * 6000
+    n = 2500 if tier == "quick" else 16 * 4000
     for _ in range(n):
         yield gen_case(rng)
 
